@@ -272,6 +272,24 @@ def replay_file(path: str):
     return ok, res, rp
 
 
+_confirm_dirs = []
+
+
+def confirm_in_fresh_process(pid, seed, run, case, failure, digest):
+    """a failure seen in a worker counts only if the same case fails the same way in a fresh interpreter;
+    returns the path of the (unminimised) replay file, or None"""
+    import subprocess
+    import tempfile
+    d = tempfile.mkdtemp(prefix='confirm_', dir=os.path.join(VERIF, 'replays')) if os.path.isdir(
+        os.path.join(VERIF, 'replays')) else tempfile.mkdtemp(prefix='confirm_')
+    _confirm_dirs.append(d)
+    path = write_replay(pid, seed, run, case, failure, digest, directory=d)
+    env = dict(os.environ, PYTHONHASHSEED='0')
+    cp = subprocess.run([sys.executable, os.path.join(VERIF, 'sim', 'cli.py'), pid, '--replay', path, '--quiet'],
+                        env=env, capture_output=True, text=True, timeout=900)
+    return path if cp.returncode == 1 else None
+
+
 # ----------------------------------------------------------------------------------------------
 # the batch
 # ----------------------------------------------------------------------------------------------
@@ -333,6 +351,7 @@ def run_batch(pid: str, tier: str, seed: int, max_runs: int, budget_s: float, wo
     det_first = {}
     det_checked = 0
     first_failures = []
+    unconfirmed = []
     cpu_s = 0.0
     with make_pool(workers) as pool:
         next_run = 0
@@ -395,8 +414,14 @@ def run_batch(pid: str, tier: str, seed: int, max_runs: int, budget_s: float, wo
                     kk = next((k for k in known_key_set if key_matches(k, f0['sig'])), None)
                     if kk is not None:
                         out['known_hits'][kk] = out['known_hits'].get(kk, 0) + 1
-                    else:
-                        first_failures.append((r, res['case'], f0, res['digest']))
+                    elif len(unconfirmed) < 12:
+                        cpath = confirm_in_fresh_process(pid, seed, r, res['case'], f0, res['digest'])
+                        if cpath is not None:
+                            first_failures.append((r, res['case'], f0, res['digest'], cpath))
+                        else:
+                            # depends on what the worker process did before (state leaking between runs?):
+                            # not reportable as a violation without a replay - keep exploring
+                            unconfirmed.append((r, f0))
             if first_failures and len(first_failures) >= 1:
                 # stop exploring once a violation is in hand: minimise and report it
                 for fut in pending:
@@ -429,31 +454,42 @@ def run_batch(pid: str, tier: str, seed: int, max_runs: int, budget_s: float, wo
     # 3. minimise + verify + report violations -----------------------------------------------------
     first_failures.sort(key=lambda t: t[0])
     reported_sigs = set()
-    for r, case, f0, dig in first_failures[:3]:
+    for r, case, f0, dig, cpath in first_failures[:3]:
         if f0['sig'] in reported_sigs:
             continue
         reported_sigs.add(f0['sig'])
         small = shrink(pid, case, f0['sig'])
         res = exec_case(pid, small)
         fs = [f for f in res['failures'] if sig_class(f['sig']) == sig_class(f0['sig'])]
-        if not fs:   # should not happen: shrink only keeps failing candidates
-            small, res = case, exec_case(pid, case)
-            fs = [f for f in res['failures'] if sig_class(f['sig']) == sig_class(f0['sig'])]
-        if not fs:
-            out['harness_errors'].append(f'run {r}: failure {f0["sig"]} did not reproduce in the parent process')
-            continue
-        path = write_replay(pid, seed, r, small, fs[0], res['digest'])
-        # replay must reproduce exactly, in a fresh interpreter
-        import subprocess
-        env = dict(os.environ, PYTHONHASHSEED='0')
-        cp = subprocess.run([sys.executable, os.path.join(VERIF, 'sim', 'cli.py'), pid, '--replay', path,
-                             '--quiet'], env=env, capture_output=True, text=True, timeout=600)
-        if cp.returncode != 1:
-            out['harness_errors'].append(f'run {r}: replay of {path} in a fresh process gave exit '
-                                         f'{cp.returncode}: {cp.stdout[-500:]} {cp.stderr[-500:]}')
-            continue
-        out['violations'].append({'run': r, 'replay': path, 'failure': fs[0], 'case': small})
+        ok_small = False
+        if fs:
+            path = write_replay(pid, seed, r, small, fs[0], res['digest'])
+            # the minimised replay must reproduce exactly, in a fresh interpreter
+            import subprocess
+            env = dict(os.environ, PYTHONHASHSEED='0')
+            cp = subprocess.run([sys.executable, os.path.join(VERIF, 'sim', 'cli.py'), pid, '--replay', path,
+                                 '--quiet'], env=env, capture_output=True, text=True, timeout=600)
+            ok_small = cp.returncode == 1
+        if ok_small:
+            out['violations'].append({'run': r, 'replay': path, 'failure': fs[0], 'case': small})
+        else:
+            # minimisation happens in this (long-lived) process; if its result does not hold in a fresh interpreter
+            # the unminimised case, which was confirmed in a fresh interpreter, is reported instead
+            say(f'note: the minimised case of run {r} does not reproduce in a fresh process; reporting the '
+                f'unminimised, confirmed case')
+            final = os.path.join(VERIF, 'replays', f'{pid}-{seed}-{r}.json')
+            os.replace(cpath, final)
+            out['violations'].append({'run': r, 'replay': final, 'failure': f0, 'case': case})
+    if not out['violations']:
+        for r, f0 in unconfirmed[:5]:
+            out['harness_errors'].append(
+                f'run {r}: failure {f0["sig"]} ({f0["clause"]}: {f0.get("msg", "")[:200]}) was seen in a worker but '
+                f'does not reproduce from its case alone in a fresh process: it depends on what the process executed '
+                f'before (state leaking between model instances / runs) - no replay can be given')
 
+    import shutil
+    for d_ in _confirm_dirs:
+        shutil.rmtree(d_, ignore_errors=True)
     wall = time.time() - t0
     for v in out['violations']:
         f = v['failure']
